@@ -8,6 +8,11 @@ Space (E2): every stream of <= k top-level items over
 evaluated as hy.eval(hy.read_many(text)) in a fresh module M1, followed by each
 of a fixed list of second streams evaluated the same way (fresh reader) in an
 unrelated fresh module M2.
+Plus the "nested compilation" leg: streams whose first form requires / imports a
+module FILE that has not been compiled yet (it is read and compiled in the
+middle of M1's stream, defines reader macros and uses its own), second form a
+use of one of that module's reader macros: visible exactly when the `:readers`
+list names it.
 Oracle: mc/ref/mac_readerstream.py (reader table updated only between top-level
 forms): the top-level forms produced, the values passed to `rec`, LexException
 exactly at a use before/without definition (or inside the defining form),
@@ -55,7 +60,7 @@ def bounds(tier):
 
 def shards(tier):
     b = BOUNDS[tier]
-    return [["graph", 0]] + enumer.string_shards(len(b["items"]), b["k"], b["shards"])
+    return [["graph", 0], ["nested", 0]] + enumer.string_shards(len(b["items"]), b["k"], b["shards"])
 
 
 # ------------------------------------------------------------------ implementation side
@@ -248,11 +253,90 @@ def check_case(acc, env, first, second):
     return r1
 
 
+# ------------------------------------------------------------------ nested compilation
+# A stream in M1 requires / imports a module file that has NOT been compiled yet, so that module is read and compiled
+# in the middle of M1's stream.  That module defines reader macros and uses one of its own; M1 sees exactly the names
+# its `:readers` list asks for.
+NESTED_SRC = "(defreader z '78)\n(setv own #z)\n(defreader r '77)\n(setv own2 #r)\n"
+# (first form template, second form, expected: list of rec values | "lex")
+NESTED = [
+    ("(require {M} :readers [r])", "(rec #r)", [[77]]),
+    ("(require {M} :readers [r])", "(rec #z)", "lex"),
+    ("(require {M} :readers [z])", "(rec #z)", [[78]]),
+    ("(require {M})", "(rec #r)", "lex"),
+    ("(require {M})", "(rec #z)", "lex"),
+    ("(require {M} :readers *)", "(rec #z #r)", [[78, 77]]),
+    ("(import {M})", "(rec #z)", "lex"),
+    ("(import {M})", "(rec #r)", "lex"),
+    ("(eval-when-compile (import {M}))", "(rec #z)", "lex"),
+]
+
+
+def check_nested(acc, env, idx):
+    import importlib
+    import os
+    import sys
+    first, second, want = NESTED[idx]
+    env["n"] += 1
+    name = "mrd_n_%d_%d" % (os.getpid(), env["n"])
+    d = os.path.dirname(env["helper"].__file__)
+    with open(os.path.join(d, name + ".hy"), "w") as fh:
+        fh.write(NESTED_SRC)
+    importlib.invalidate_caches()
+    text = first.format(M=name) + "\n" + second + "\n"
+    case = {"nested": idx, "text": text.replace(name, "FRESH"), "fresh_module_source": NESTED_SRC}
+    g = run_stream(env, text, "nested")
+    acc.evaluations += 1
+    acc.traces += 1
+    acc.transitions += 2
+    acc.nontrivial += 1
+    acc.states += 1
+
+    def bad(kind, detail, sig, **kw):
+        acc.disagree(kind, case, "[nested] " + detail + "\nstream:\n" + case["text"] + "FRESH.hy:\n" + NESTED_SRC, sig="nested:%s:%s" % (kind, sig), phase="nested", **kw)
+    mod = sys.modules.get(name)
+    acc.outcome("nested:" + ("rejected" if want == "lex" else "ok"))
+    if g["current_reader_left"]:
+        bad("current-reader-not-restored", "HyReader._current_reader is not None after the stream", "x")
+    if want == "lex":
+        if g["exc"] is None:
+            bad("missing-error", "the second form uses a reader macro of the freshly compiled module that the stream never required with :readers; "
+                "hy read %r and computed %r" % (g["forms"], g["recs"]), first.split()[0].strip("("))
+        elif "LexException" not in g["exc"][1]:
+            bad("unexpected-error" if len(g["forms"]) < 2 else "wrong-error-type", "%s: %s after %d forms" % (g["exc"][0], g["exc"][2], len(g["forms"])),
+                g["exc"][0], exc=g["exc"][0])
+    else:
+        if g["exc"] is not None:
+            bad("unexpected-error", "%s: %s after %d forms; reference: the stream reads and evaluates" % (g["exc"][0], g["exc"][2], len(g["forms"])),
+                g["exc"][0], exc=g["exc"][0])
+        elif g["recs"] != want:
+            bad("wrong-values", "values passed to rec: %r; reference %r" % (g["recs"], want), "values")
+    if mod is not None and g["exc"] is None or (mod is not None and len(g["forms"]) >= 2):
+        own = (mod.__dict__.get("own"), mod.__dict__.get("own2"))
+        if own != (78, 77):
+            bad("wrong-values", "the freshly compiled module used its own reader macros: (own, own2) = %r; reference (78, 77)" % (own,), "own")
+        if sorted(getattr(mod, "_hy_reader_macros", {})) != ["r", "z"]:
+            bad("module-table", "the freshly compiled module's _hy_reader_macros keys %r; reference ['r', 'z']" % sorted(getattr(mod, "_hy_reader_macros", {})), "fresh-keys")
+    # an unrelated module / reader afterwards
+    g2 = run_stream(env, "(rec #z)\n", "nested2")
+    if g2["exc"] is None or "LexException" not in g2["exc"][1]:
+        bad("cross-module-leak", "an unrelated module could then read #z: %r %r" % (g2["recs"], g2["exc"]), "unrelated")
+    sys.modules.pop(name, None)
+    try:
+        os.unlink(os.path.join(d, name + ".hy"))
+    except OSError:
+        pass
+
+
 def run_shard(shard, tier):
     from mc.ref import mac_readerstream as R
     b = BOUNDS[tier]
     env = _setup()
     acc = Acc()
+    if shard[0] == "nested":
+        for idx in range(len(NESTED)):
+            check_nested(acc, env, idx)
+        return acc.result()
     if shard[0] == "graph":
         # the reference model alone over every first stream: exact number of distinct
         # (reader table, module table, rejected?) states, definition constants replaced by rank
@@ -288,6 +372,9 @@ def _canon(st, e):
 def recheck(case, tier):
     env = _setup()
     acc = Acc()
+    if "nested" in case:
+        check_nested(acc, env, case["nested"])
+        return acc.disagreements
     check_case(acc, env, case["first"], case["second"])
     return acc.disagreements
 
